@@ -11,6 +11,13 @@
 //!     below / at / beyond the remaining length) judged by the std defaults run over a deque model, and to
 //!     PAIRS of iterators in independently chosen cursor states for the binary operations (==, !=, hash
 //!     contract, Iterator::eq/cmp/.., zip, chain, swap) with value-shifted contents.
+//!     `observers.rs`: every observer in every variant a caller can select ({:?}, {:#?}, width / fill / sign /
+//!     precision / hex flags, run-time width, nesting in Option / tuple / array, five sinks incl. failing ones;
+//!     SipHash / recording / FNV hashers, hash_one, hash_slice, HashSet membership; ==, != through references,
+//!     Option, arrays, tuples), judged by the ledger's observation log (exactly the live elements, in order) and the
+//!     element texts shown; the same for Debug / Display / Hash / == of vectors, matrices and their views.
+//!     `sources.rs`: FromIterator / collect() fed from BORROWED sources with fewer / exactly as many / more elements
+//!     than needed: the source afterwards holds exactly the elements not placed in the vector.
 //! (b) CONVERSIONS (arrays, tuples, iterators, map/zip, matrix arrays in both orders and both layouts,
 //!     transposition, layout change): id at output position k = id the documentation places there; nothing
 //!     cloned, dropped or even observed in transit; nothing leaked.
@@ -1080,6 +1087,36 @@ pub fn property() -> Property {
             });
         }};
     }
+    // observers of vectors / views in every format variant, and borrowed sources of FromIterator
+    macro_rules! per_vec_obs {
+        ($V:ident, $n:expr, $sfx:literal) => {{
+            let total = observers::vec_obs_total();
+            checks.push(Check {
+                name: concat!("observers-vec-", $sfx),
+                about: "Debug / Display of the vector, Debug of as_slice(), iter(), &*v, iter_mut(), into_array() and of a fresh into_iter(), x every format specification (plain, #, width, fill, alignment, sign, zero, precision, hex, run-time width/precision, the value twice, nested in Option / tuple / array) x 5 sinks (String, Vec<u8> through io::Write, piece counter, two failing sinks): every element is looked at exactly once per occurrence, in the documented order (Display, views), the texts shown are the elements' values, nothing is cloned or dropped; plus ==, != (through references, Option, arrays) and every hashing route of equal / unequal vectors",
+                kind: Kind::Index { total, quick: total, thorough: total, f: observers::vec_obs_case::<$V<Tracked>, $n> },
+            });
+            let total = sources::split_total($n);
+            checks.push(Check {
+                name: concat!("sources-split-", $sfx),
+                about: "FromIterator / collect() of the vector type fed from BORROWED sources (vec::IntoIter.by_ref(), &mut source, &mut dyn Iterator, sources with exact / (0,None) / lower-only / upper-only size hints, vec_deque by_ref().rev(), two advanced vek IntoIters chained by_ref, the vector's own IntoIter advanced from both ends, by_ref().take(k) with k around n, by_ref().map, by_ref of by_ref) holding 0..=2n+2 elements (fewer / exactly as many / more than needed), 1-3 rounds on the same source: each vector holds the next min(n, remaining) elements in order with a Default tail, the source afterwards holds exactly the elements not placed (len/size_hint, hand-out counter, draining), no source element is dropped / lost / cloned / observed, everything is dropped exactly once at the end",
+                kind: Kind::Index { total, quick: total, thorough: total, f: sources::split_case::<$V<Tracked>, $n> },
+            });
+        }};
+    }
+    per_vec_obs!(Vec2, 2, "vec2");
+    per_vec_obs!(Vec3, 3, "vec3");
+    per_vec_obs!(Vec4, 4, "vec4");
+    per_vec_obs!(Vec8, 8, "vec8");
+    per_vec_obs!(Vec16, 16, "vec16");
+    per_vec_obs!(Vec32, 32, "vec32");
+    per_vec_obs!(Vec64, 64, "vec64");
+    per_vec_obs!(Extent2, 2, "extent2");
+    per_vec_obs!(Extent3, 3, "extent3");
+    per_vec_obs!(Rgb, 3, "rgb");
+    per_vec_obs!(Rgba, 4, "rgba");
+    per_vec_obs!(Uv, 2, "uv");
+    per_vec_obs!(Uvw, 3, "uvw");
     const ALL: u64 = u64::MAX;
     per_vec_ext!(Vec2, 2, "vec2", ALL, ALL, ALL);
     per_vec_ext!(Vec3, 3, "vec3", ALL, ALL, ALL);
@@ -1108,6 +1145,22 @@ pub fn property() -> Property {
             });
         }};
     }
+    macro_rules! per_mat_obs {
+        ($M:ty, $n:expr, $nn:expr, $name:expr) => {{
+            let total = observers::mat_obs_total();
+            checks.push(Check {
+                name: $name,
+                about: "Debug / Display of the matrix and Debug of its native slice view x every format specification x 5 sinks: every element is looked at exactly once per occurrence; Display lists m[i][j] row by row whatever the storage layout (documented), the slice view in storage order; nothing cloned or dropped",
+                kind: Kind::Index { total, quick: total, thorough: total, f: observers::mat_obs_case::<$M, $n, $nn> },
+            });
+        }};
+    }
+    per_mat_obs!(rm::Mat2<Tracked>, 2, 4, "observers-row-mat2");
+    per_mat_obs!(cm::Mat2<Tracked>, 2, 4, "observers-col-mat2");
+    per_mat_obs!(rm::Mat3<Tracked>, 3, 9, "observers-row-mat3");
+    per_mat_obs!(cm::Mat3<Tracked>, 3, 9, "observers-col-mat3");
+    per_mat_obs!(rm::Mat4<Tracked>, 4, 16, "observers-row-mat4");
+    per_mat_obs!(cm::Mat4<Tracked>, 4, 16, "observers-col-mat4");
     per_mat!(rm::Mat2<Tracked>, 2, 4, "conv-row-mat2", "views-row-mat2");
     per_mat!(cm::Mat2<Tracked>, 2, 4, "conv-col-mat2", "views-col-mat2");
     per_mat!(rm::Mat3<Tracked>, 3, 9, "conv-row-mat3", "views-row-mat3");
@@ -1116,7 +1169,7 @@ pub fn property() -> Property {
     per_mat!(cm::Mat4<Tracked>, 4, 16, "conv-col-mat4", "views-col-mat4");
     Property {
         id: "C18",
-        rule: "iterator cases are histories over {next, next_back, len, size_hint, {:?}, ==twin, hash, drop-now} with a keep/drop decision of the consumer for every yielded element: the table enumerates every (start,end) x {front-first, back-first, alternating} x 3 consumer policies x 8 operations for each of the 13 vector types, random histories come from proptest byte tapes; a history is non-trivial when it pulls from both ends and the iterator is dropped with >= 1 element still inside, or when it formats/compares/hashes after >= 1 pull; conversion and view cases (finite, fully enumerated) are all non-trivial: every element is a distinct Tracked id; distinct = distinct index / consumed tape prefix per check; adapters-table / pairs-adapters / adapters-random cases are histories over the extended alphabet (every Iterator / DoubleEndedIterator / ExactSizeIterator method and std adapter, by_ref and by value, argument classes 0, 1, rem/2, rem-1, rem, rem+1, rem+7, usize::MAX relative to the remaining length at that moment; for chain/flatten also relative to both lengths): adapters-table enumerates cursor state x (operation, argument class) (all states for n <= 16, a seeded sample for n = 32, 64), pairs-observers enumerates state pair x 4 content modes x {==/!=, hash} (all pairs for n <= 8), pairs-adapters state pair x two-operand (operation, argument class) (all pairs for n <= 4); such a case is non-trivial when it executes at least one operation other than next / next_back / len / size_hint, or a pair observer after at least one pull",
+        rule: "iterator cases are histories over {next, next_back, len, size_hint, {:?}, ==twin, hash, drop-now} with a keep/drop decision of the consumer for every yielded element: the table enumerates every (start,end) x {front-first, back-first, alternating} x 3 consumer policies x 8 operations for each of the 13 vector types, random histories come from proptest byte tapes; a history is non-trivial when it pulls from both ends and the iterator is dropped with >= 1 element still inside, or when it formats/compares/hashes after >= 1 pull; conversion and view cases (finite, fully enumerated) are all non-trivial: every element is a distinct Tracked id; distinct = distinct index / consumed tape prefix per check; adapters-table / pairs-adapters / adapters-random cases are histories over the extended alphabet (every Iterator / DoubleEndedIterator / ExactSizeIterator method and std adapter, by_ref and by value, argument classes 0, 1, rem/2, rem-1, rem, rem+1, rem+7, usize::MAX relative to the remaining length at that moment; for chain/flatten also relative to both lengths): adapters-table enumerates cursor state x (operation, argument class) (all states for n <= 16, a seeded sample for n = 32, 64), pairs-observers enumerates state pair x 4 content modes x {==/!=, hash} (all pairs for n <= 8), pairs-adapters state pair x two-operand (operation, argument class) (all pairs for n <= 4); such a case is non-trivial when it executes at least one operation other than next / next_back / len / size_hint, or a pair observer after at least one pull; the Debug observer of these histories is parametrised by (format specification, sink): adapters-table enumerates cursor state x 24 specifications x 5 sinks; observers-vec / observers-mat (kind of value x specification x sink, fully enumerated) and sources-split (12 kinds of borrowed source x source length 0..=2n+2 x 1..3 rounds, fully enumerated) cases are all non-trivial",
         assumptions: &[
             "rustc, std (arrays, Vec, slices, DefaultHasher) and the proptest runner/shrinker are trusted",
             "the oracle is the thread-local ownership ledger of c18::ledger::Tracked (a plain {id,val} struct, so that reading a stale slot is harmless for the harness) plus a deque model of the iterator; neither calls vek",
@@ -1125,6 +1178,11 @@ pub fn property() -> Property {
             "a correct Debug/PartialEq/Hash of IntoIter may only touch live elements; additionally asserted: no panic, an iterator equals its identically-driven twin, equal iterators hash equally; format and hash value are free",
             "the extended iterator checks run the same generic std code (c18::adapters::partial / finish) on vek's iterator and on a model that implements only next, next_back and an exact size_hint over a VecDeque; a correct override of any other method is observationally equal to the std default, so returned values, hand-out order, remaining lengths and which elements were dropped inside the call must agree (in particular nth(n) / nth_back(n) with n >= len() consume everything and return None, as the std docs of nth and advance_by state)",
             "iterator == / != are judged against the remaining VALUE sequences (vek: 'Debug, PartialEq and Hash only consider the elements that weren't yielded'): equal iff same remaining length and pairwise equal values, whatever the cursor positions; != is the negation; both operand orders agree; equal iterators hash equally. Nothing is asserted about the hash value, about hashes of unequal iterators, or about the text of {:?}",
+            "formatting a consuming iterator looks at exactly its live elements, once per occurrence of the value in the format string, in order, whatever the flags / nesting / sink (vek: 'Debug, PartialEq and Hash only consider the elements that weren't yielded'); the element texts found in the output (t<val>, written by the element's own Debug) are the remaining values in order; a failing sink may cut this short (prefix). Everything else about the text (names, punctuation, padding, pretty layout) is free",
+            "the vector's own Debug is judged as a multiset of elements (field order of {:?} is not documented); Display of vectors in declaration order (documented format), Display of matrices row by row whatever the layout (documented: 'This format doesn't depend on the matrix's storage layout'), the std formatters of slice views / iter() / iter_mut() / arrays in slice order",
+            "hashing: only live elements may be looked at; iterators with equal remaining value sequences (and equal vectors) agree on every route (SipHash, a recording hasher's complete call stream, FNV, hash_one, hash_slice of a one-element slice, hash of a tuple) and are one member of a HashSet; nothing is asserted about which or how many live elements a hash looks at, nor about unequal values",
+            "FromIterator from a BORROWED source takes exactly min(n, available) elements and leaves all others in the source (reading of 'transfers each element exactly once': an element pulled and then dropped is in neither the vector nor the source, i.e. lost); whether next() is called again after the source returned None is recorded as a label, not judged; sources only report legal size hints (exact, (0,None), (n,None), (0,Some(n+5)))",
+            "not exercised: panicking element constructors / Default::default / element Debug impls during conversions and formatting (vek's docs say nothing about unwinding); Sum / Product over iterators of vectors (arithmetic on Copy scalars, no ownership to track); from_slice needs T: Copy, so it cannot clone a tracked element (covered with u32 elements in conv-*); dbg! itself (it is {:#?} into stderr, which is exercised as a format specification)",
             "std's StepBy::nth needs ~2^64 loop rounds when both the step and n are usize::MAX (overflow resolution loop in std, independent of vek): for that one adapter both factors are capped at 2^20; nth / nth_back / skip / take / step_by themselves are exercised with usize::MAX",
             "panics of user closures / element Drop inside iterator methods are not exercised (the property does not speak about unwinding); advance_by, next_chunk, array_chunks, is_empty and the other unstable iterator methods are not callable on the pinned stable toolchain and are reached only through the stable methods built on them",
             "FromIterator fills the tail of a short source with Default values (T: Default bound; from_slice doc: elements are initialized to their default values) and never stores surplus elements",
